@@ -508,7 +508,7 @@ def execute(plan: dict[str, Any]) -> dict[str, Any]:
                 pref = runner.in_fork(_reference, plain, data_of[op["text"]], timeout=120)
                 mine = refs[json.dumps(parseop.access_key(op))]
                 probes["cross_access_references"] = 1
-                if pref != mine:
+                if _nolog(pref) != _nolog(mine):
                     vio("access-path-differs",
                         f"text {op['text']} ({c['kind']}): read via {parseop.access_key(op)[2:]} a "
                         f"fresh-process parse gives {_short(mine)} but via one in-memory read it gives "
@@ -522,7 +522,7 @@ def execute(plan: dict[str, Any]) -> dict[str, Any]:
                 fo = _fresh_reference(op, data_of[op["text"]], fr["hashseed"], fr.get("flavour", "default"))
                 fresh_refs = 1
                 probes["fresh_interpreter_env:" + fr.get("flavour", "default")] = 1
-                if fo != refs[key]:
+                if _nolog(fo) != _nolog(refs[key]):
                     vio("fresh-interpreter-disagrees",
                         f"text {op['text']} via {parseop.access_key(op)[2:]}: forked reference "
                         f"{_short(refs[key])} but fresh interpreter (PYTHONHASHSEED="
@@ -711,6 +711,12 @@ def execute(plan: dict[str, Any]) -> dict[str, Any]:
                             out = {"kind": "observe-failed", "exc": exc_token(e)}
                     out["log"] = log
                     sched.record("op", ci, k, rng.digest(out))
+                    if out != ref and {x: y for x, y in out.items() if x != "log"} == {
+                            x: y for x, y in ref.items() if x != "log"}:
+                        # same chart, other reports: the statement speaks of the chart only (a
+                        # correct result cache, for one, does not report a second time) - counted
+                        probes["reports_differ_from_reference"] = probes.get("reports_differ_from_reference", 0) + 1
+                        out = ref
                     if out != ref:
                         if out["kind"] != ref["kind"]:
                             sym = "outcome-kind-differs"
@@ -810,6 +816,10 @@ def _judge_faulted(err: BaseException | None, injected: BaseException | None, ch
 
 def _same_failure(err: BaseException, ref: dict[str, Any]) -> bool:
     return ref.get("kind") == "exc" and ref.get("exc") == exc_token(err)
+
+
+def _nolog(o: dict[str, Any]) -> dict[str, Any]:
+    return {k: v for k, v in o.items() if k != "log"}
 
 
 def _short(o: dict[str, Any]) -> str:
